@@ -82,6 +82,7 @@ package parse
 //@   ensures l.lastEmit.typ == t && len(l.lastEmit.val) == l.pos - old(l.start)
 
 //@ func (*lexer).errorf
+//@   pure
 //@   props C05
 //@   ensures result == nil
 
@@ -102,11 +103,13 @@ package parse
 //@     decreases len(l.input) - l.pos
 
 //@ func (*lexer).lineNumber
+//@   pure
 //@   props C05 C19
 //@   requires 0 <= pos && pos <= len(l.input)
 //@   ensures result >= 1 && result <= 1 + pos
 
 //@ func (*lexer).columnNumber
+//@   pure
 //@   props C05 C19
 //@   requires 0 <= pos && pos <= len(l.input)
 //@   ensures result >= 0 && result <= pos
@@ -118,6 +121,7 @@ package parse
 //@   ensures l.pos == old(l.pos) && l.start == ite(l.pos - backup > old(l.start), l.pos - backup, old(l.start))
 
 //@ func allSpaceWithNewline
+//@   pure
 //@   props C05
 
 //@ func skipSpace
